@@ -16,7 +16,7 @@ CLAIM = dict(
          'seven value families (positive, mixed sign, negative diagonal, zero diagonal with nonzero sub-diagonal, tiny sub-diagonal, singular, general reals) with arbitrary padding. '
          'Rat: det must equal the fraction-free determinant of the dense twin and A x = b must hold exactly, both recomputed by TLC. Floats: backward error units <= 8 n^3 2^(n-1) (x8 complex). '
          'Floats, every (n, m1 >= 2, m2): pivot columns whose candidates inside the search window are graded 1, 2^-60, 2^-120, ... in chosen orders (diagonal zero or smallest, largest first / last / random) at a chosen elimination step - '
-         'only the pivot of largest magnitude keeps the backward error inside the guard. Complex on the axes: Gaussian-integer systems A = P(2L)U with purely imaginary pivots (squared moduli powers of two, so every complex float operation of the elimination is exact) are judged EXACTLY - TLC recomputes the fraction-free determinant over Gaussian integers and checks A x = b over Gaussian rationals by cross-multiplication; a float family with every entry exactly on the real or imaginary axis; scalar factors and divisors i, -i, 2i, -1 in histories and sequences; graded pivot candidates exactly on the negative imaginary axis. CPU count: the product for n up to 40 (beyond the number of CPUs) and a sample of the small-n histories re-run with the process restricted to 1, 2, 3 CPUs must give the same events. Awkward pivots: integer systems A = P(4L)U whose elimination is exact in f64 although the pivots (49, 51, 98, 103, 147, ...) have inexact reciprocals - f64 is judged exactly like Rat. Exponent sweep: such exact systems scaled by 2^k for k over the whole f64 exponent axis (-1070..1020, grid of 8 in the quick tier and 2 at the extremes, every k in the thorough tier; subnormal pivots included; Complex for -530..500 where its own quotient stays in range), right-hand side scaled alike or not at all, det where 2^(nk) is representable - judged exactly on the integer system by homogeneity. Operands of different geometry: for every (n, m1, m2) with n <= 7 (8 in the thorough tier) +, -, += and -= (both forms) with a second operand that agrees in the aggregates a storage check could see but not in geometry - equal n and equal m1+m2 with another split (identical storage shape), equal number of slots with another n, one bandwidth or the size off by one, contained and containing bands: the call must refuse or deliver the sum / difference of the dense twins (Trace_Banded: panic or DenseLin), and the left operand must be intact afterwards. Refused calls and what follows (sequences on one object that starts singular with column k = first / middle / last zero, n = 1 with a zero entry): solve on the singular matrix, a right-hand side of another size (must be refused) and out-of-range get / set are followed at once by the same call again, det (exactly 0), the calls on a clone, stand-alone solve / det on other regular and singular objects on the same thread, assignments that keep the matrix singular, the assignment that repairs it (solve and det must then be right, repeatedly), the matrix broken again, scaled, and repaired with another value; every event must start from the model value - a refused call leaves the object as it was. Other geometries: one object resized to a different (n, m1, m2) - systematically pairs with the same number of storage slots but another storage shape, pairs that only move the split, and Banded::empty() followed by resize - then fill and assignment of every in-band entry through the index operator, then every observer against the dense twin (resize itself is only required to deliver the new geometry with well-formed storage). Non-finite padding (floats): NaN, +-inf, +-f64::MAX (overflowing under *= 4) and -0.0 in the slots outside the matrix must not reach product, det or solve. Extreme magnitudes (floats, every n): regular systems uniformly scaled by 2^+-60, 2^+-200, 2^+-400 with the solution O(1) or as extreme as the matrix, and row- / column-graded by such factors - the same guard must hold (the measure is evaluated on exactly descaled data), a panic or refusal is a violation; det is judged while 2^(n e) stays representable. Sequences on ONE object: det, solve, product and all in-band reads before and after EVERY mutating operation '
+         'only the pivot of largest magnitude keeps the backward error inside the guard. Complex on the axes: Gaussian-integer systems A = P(2L)U with purely imaginary pivots (squared moduli powers of two, so every complex float operation of the elimination is exact) are judged EXACTLY - TLC recomputes the fraction-free determinant over Gaussian integers and checks A x = b over Gaussian rationals by cross-multiplication; a float family with every entry exactly on the real or imaginary axis; scalar factors and divisors i, -i, 2i, -1 in histories and sequences; graded pivot candidates exactly on the negative imaginary axis. CPU count: the product for n up to 40 (beyond the number of CPUs) and a sample of the small-n histories re-run with the process restricted to 1, 2, 3 CPUs must give the same events. Awkward pivots: integer systems A = P(4L)U whose elimination is exact in f64 although the pivots (49, 51, 98, 103, 147, ...) have inexact reciprocals - f64 is judged exactly like Rat. Exponent sweep: such exact systems scaled by 2^k for k over the whole f64 exponent axis (-1070..1020, grid of 8 in the quick tier and 2 at the extremes, every k in the thorough tier; subnormal pivots included; Complex for -530..500 where its own quotient stays in range), right-hand side scaled alike or not at all, det where 2^(nk) is representable - judged exactly on the integer system by homogeneity. Growth adversaries for banded partial pivoting (f64 and Complex, n = 8..12, m1 = 2..4, wide upper band carrying the last one or two columns or a full band of noise): in every column the diagonal is the smallest candidate and the k-th candidate is rho times the previous one (rho = 1.5, 2, 4, 7.9, 8.1, 16; also all deeper candidates about rho), inexact noise on every entry - the residual is judged componentwise in units of eps (|L||U||x|)_i with the factors of a reference elimination with partial pivoting in double-double (ties excluded), guard 16 n (x4 complex), i.e. WITHOUT the worst-case growth 2^(n-1): a search that keeps a smaller row (multipliers above 1) is rejected. Std-trait forms: Clone::clone_from as a mutator of the sequence model, along chains of sources of the same geometry, the same storage shape with another split, the same number of slots with another n, larger, smaller, 1 x 1 and back, sources built plainly / grown by resize / cloned from a dropped original, targets fresh / mutated / resized - the target must become the source, geometry included, the source stay as it was; then all observers, det and solve on target and source, a write to one and a look at the other (both ways), clone_from in the opposite direction, clone-and-drop, and == / != against a clone (true), a clone with one entry changed and an object with the same storage but another split (false; != the negation). Operands of different geometry: for every (n, m1, m2) with n <= 7 (8 in the thorough tier) +, -, += and -= (both forms) with a second operand that agrees in the aggregates a storage check could see but not in geometry - equal n and equal m1+m2 with another split (identical storage shape), equal number of slots with another n, one bandwidth or the size off by one, contained and containing bands: the call must refuse or deliver the sum / difference of the dense twins (Trace_Banded: panic or DenseLin), and the left operand must be intact afterwards. Refused calls and what follows (sequences on one object that starts singular with column k = first / middle / last zero, n = 1 with a zero entry): solve on the singular matrix, a right-hand side of another size (must be refused) and out-of-range get / set are followed at once by the same call again, det (exactly 0), the calls on a clone, stand-alone solve / det on other regular and singular objects on the same thread, assignments that keep the matrix singular, the assignment that repairs it (solve and det must then be right, repeatedly), the matrix broken again, scaled, and repaired with another value; every event must start from the model value - a refused call leaves the object as it was. Other geometries: one object resized to a different (n, m1, m2) - systematically pairs with the same number of storage slots but another storage shape, pairs that only move the split, and Banded::empty() followed by resize - then fill and assignment of every in-band entry through the index operator, then every observer against the dense twin (resize itself is only required to deliver the new geometry with well-formed storage). Non-finite padding (floats): NaN, +-inf, +-f64::MAX (overflowing under *= 4) and -0.0 in the slots outside the matrix must not reach product, det or solve. Extreme magnitudes (floats, every n): regular systems uniformly scaled by 2^+-60, 2^+-200, 2^+-400 with the solution O(1) or as extreme as the matrix, and row- / column-graded by such factors - the same guard must hold (the measure is evaluated on exactly descaled data), a panic or refusal is a violation; det is judged while 2^(n e) stays representable. Sequences on ONE object: det, solve, product and all in-band reads before and after EVERY mutating operation '
          '(index writes, fill, fill_band, resize, += / -= &B and B, *= s, /= s, += c, -= c); the trace specification keeps the model\'s current value and demands that every event starts from it.',
     note='Exact: everything over Rat and all integer-valued histories in every element type (decided by TLC). Measured: f64/Complex det and solve - the harness '
          'computes error units against complex double-double references (backward error of solve in units of eps(|A||x|+|b|); determinant error in units of '
